@@ -1426,6 +1426,12 @@ impl World {
                     self.stats.bump("forged_key_unparseable");
                     return;
                 };
+                if forged == self.usks[i].usk {
+                    // the altered bytes decode to the very same key (a field the decoder
+                    // normalises): an equivalent encoding, not another key
+                    self.stats.bump("forged_key_equivalent_encoding");
+                    return;
+                }
                 let before = self.msk_snapshot();
                 let out = call(|| self.cc.refresh_usk(&mut self.msk, &mut forged, *keep));
                 match self.agree(op, false, "forged-key", &out) {
@@ -1916,6 +1922,8 @@ pub fn run_history(profile: &Profile, seed: u64, config: &str) -> Option<World> 
     for op in g.initial_structure(profile) {
         w.step(&op);
     }
+    // the initial construction is not part of the history proper
+    w.flags = Flags::default();
     w.struct_shape = w
         .mskm
         .st
